@@ -20,7 +20,9 @@ macro_rules! with_prop {
             "C11" => $m!(props::C11, $($args)*),
             "C13" => $m!(props::C13, $($args)*),
             "C14" => $m!(props::C14, $($args)*),
+            "C15" => $m!(props::C15, $($args)*),
             "C16" => $m!(props::C16, $($args)*),
+            "C19" => $m!(props::C19, $($args)*),
             "C17" => $m!(props::C17, $($args)*),
             "C18" => $m!(props::C18, $($args)*),
             "C20" => $m!(props::C20, $($args)*),
